@@ -8,7 +8,7 @@ import FqModel.Gaps
                     around the read (TryFieldValue decode.go:1251), AddChild (:791) incl. the
                     duplicate-name Fatalf, Framed/Limited/RangeFn (:929-967), SeekRel/SeekAbs with
                     restore (:736-789), nested `decode()` (:48-176: section reader, recover, FillGaps,
-                    range rebasing walk, postProcess), FieldFormat/Len/Range/OrRaw (:999-1105),
+                    range rebasing walk, postProcess), D.Format (:1003), FieldFormat/Len/Range/OrRaw (:999-1105),
                     FieldFormatBitBuf (:1107), FieldRootBitBuf (:1139), Field{Struct,Array}RootBitBufFn
                     (:1161-1183), Fatalf/Errorf (:372-381)
   * `postProcess`   value.go:184-227 (hull of same-buffer, non-synthetic children; STABLE sort of struct
@@ -118,6 +118,9 @@ inductive Prog where
   | seek (abs : Bool) (x : Int) (restore : Bool) (body : List Prog)
   /-- nested format decode on the same buffer; the sub-format is `{RootArray: arr, DecodeFn: body}` -/
   | fmt (m : FMode) (name : FName) (arr : Bool) (body : List Prog)
+  /-- `d.Format({RootArray: arr, DecodeFn: body}, nil)`: decode a nested format on the rest of the section and
+      INLINE its root's children into the current compound (one AddChild per child) -/
+  | inl (arr : Bool) (body : List Prog)
   /-- `d.FieldFormatBitBuf(name, <fresh zero buffer of nbits bits>, {RootArray: arr, DecodeFn: body})` -/
   | fmtBuf (name : FName) (nbits : Nat) (arr : Bool) (body : List Prog)
   /-- `d.FieldStructRootBitBufFn` / `d.FieldArrayRootBitBufFn` on a fresh zero buffer of nbits bits -/
@@ -402,6 +405,30 @@ def doFmt (m : FMode) (name : FName) (arr : Bool) (body : Body) (c : Ctx) (st : 
         let st1 := addChild c { st with over := st.over || r.over } t
         if !st1.ok then st1 else m.advance st st1 t.len sl0.2 L
 
+/-- one `d.AddChild(f)` per value, in order; the first refused name (Fatalf) stops — the values before it stay -/
+def addChildren (c : Ctx) : St → List T → St
+  | st, [] => st
+  | st, v :: vs => let st' := addChild c st v; if st'.ok then addChildren c st' vs else st'
+
+/-- `d.Format(group, nil)` (decode.go:1003-1031): nested decode() on Range{Pos(), BitsLeft()} without FillGaps; no value
+    or a failed one → IOPanic; every child of the nested root is added to the CURRENT value with AddChild (a struct
+    refuses a name it already has — also one inlined a moment ago); then SeekBits(dv.Range.Len, SeekCurrent) -/
+def doInline (arr : Bool) (body : Body) (c : Ctx) (st : St) : St :=
+  let L : Int := c.buf.length
+  let sl0 : Int × Int := (st.pos, L - st.pos)
+  let sl : Int × Int := if sl0.1 = 0 ∧ sl0.2 = 0 then (0, L) else sl0
+  if sl.2 < 0 ∨ sl.1 + sl.2 > L then st.fail .io
+  else
+    let r := body { buf := slice c.buf sl.1.toNat sl.2.toNat, arr := arr, force := c.force } {}
+    match finishDecode (.f 0) arr sl.1 sl.2 false false 0 r with
+    | .panic e => st.fail e
+    | .value t =>
+      if t.i.err != .none then st.fail .io
+      else
+        let st1 := addChildren c { st with over := st.over || r.over } t.kids
+        if !st1.ok then st1
+        else { st1 with pos := st.pos + t.len, over := st1.over || decide (st.pos + t.len > L) }
+
 def setStart (s : Int) : T → T
   | .mk i kids => .mk { i with start := s } kids
 
@@ -446,6 +473,7 @@ def exec : Prog → Ctx → St → St
   | .sub k n body, c, st => doSub k n (execList body) c st
   | .seek abs x restore body, c, st => doSeek abs x restore (execList body) c st
   | .fmt m name arr body, c, st => doFmt m name arr (execList body) c st
+  | .inl arr body, c, st => doInline arr (execList body) c st
   | .fmtBuf name nbits arr body, c, st => doFmtBuf name nbits arr (execList body) c st
   | .rootFn arr name nbits body, c, st => doRootFn arr name nbits (execList body) c st
   | .rootBuf name nbits, c, st => doRootBuf name nbits c st
